@@ -471,6 +471,16 @@ class Assembler:
 
         spec_lines = None
         for (cmd, sarg, lines, no) in self._subdirs(block):
+            if self.callee and cmd in ('bodystart', 'loop', 'before', 'after'):
+                continue  # callee mode: only the signature and the contract are emitted; body anchors belong to the home unit
+            if self.callee and cmd == 'replace':
+                # a declared rewrite inside the body is irrelevant here; one in the signature still applies
+                m_ = re.fullmatch(r'(\d+)\s+`(.*)`\s*=>\s*`(.*)`', sarg.strip())
+                if m_:
+                    old_ = m_.group(2).replace('<NL>', '\n')
+                    pos_ = sf.src.find(old_, s, ct[body_open].start)
+                    if pos_ < 0:
+                        continue
             if cmd == 'props':
                 props.extend(sarg.split())
             elif cmd == 'attr':
